@@ -34,7 +34,7 @@ CHECKS.update({
                 technique="TLA+ abstract machine of the schedule (RexSchedule) replaying the public Graph.timings of real compiled instances against independent TLA+ definitions (WindowOf from raw edges)",
                 text="Every episode of every compiled instance (recorded and generated graphs, 3 supergraph modes x prune x S_init) is executed generation by generation by RexSchedule: EachVertexOnce, InSeqOrder, ProducersFirst, SupClosesPartition, CarriesOwnTimes, CarriesOwnWindow, RequiredExecuted."),
     "C08": dict(level="model_checking", ref="6 C08",
-                technique="TLA+ ring-buffer machine (RexRun / RexSchedule): static replay of Graph.timings against buffer sizes + trace validation of payloads seen by probe nodes in real compiled executions",
+                technique="TLA+ ring-buffer machine (RexRun / RexSchedule): static replay of Graph.timings against buffer sizes + trace validation of payloads seen by probe nodes in real compiled executions; TLA+ model of the sizing rule (BufferSize) checked by TLC on every bounded schedule and replayed on the real Timings.get_buffer_sizes()",
                 text="RexRun models the output ring buffers (write at seq mod size at generation end, read at window.seq mod size); the payload of every window entry a probe saw must be what the model reads (ReadsRing) and that must be the scheduled producer emission or the default output (ScheduledPayload); buffer sizes automatic, extra_padding 0/1/3 and user-supplied (minimum..minimum+2; below the minimum must be refused)."),
     "C09": dict(level="model_checking", ref="6 C09",
                 technique="TLA+ API model (RexApi) enumerating call histories with their normal forms via TLC + replay on the real Graph with trace validation (RexRun API layer) and bitwise comparison of GraphStates of equal-normal-form histories",
